@@ -58,6 +58,31 @@ def check_formula(ctx, f, case, tag):
             ctx.hit('export-changes-optimum:' + tag, {"file": float(val), "direct": direct}, case)
         else:
             ctx.count('lp-file-agrees:' + tag)
+        # a second independent reader (HiGHS, as bundled with SciPy) for programs without cones
+        if not getattr(f, 'qmat', None) and not getattr(f, 'xmat', None):
+            try:
+                import scipy.optimize._highspy._core as hc
+                with C.quiet():
+                    hg = hc._Highs(); hg.setOptionValue('output_flag', False); hg.readModel(base + '.lp'); hg.run()
+                    hstat = str(hg.getModelStatus()); hval = float(hg.getObjectiveValue()) if 'kOptimal' in hstat else None
+            except Exception as ex_:
+                hstat, hval = 'reader-unavailable:' + type(ex_).__name__, 'skip'
+            if hval != 'skip' and not any(k_ in hstat for k_ in ('kTimeLimit', 'kIterationLimit', 'kUnknown', 'kNotset', 'kLoadError', 'kModelError')):
+                if (hval is None) != (direct is None):
+                    ctx.hit('export-changes-solvability:highs-reader:' + tag, {"file_status": hstat, "direct": direct}, case)
+                elif hval is not None and abs(hval - direct) > 1e-5 * (1 + abs(direct)):
+                    # (HiGHS' MILP presolve is known to return suboptimal points for some fractional integer bounds: only a
+                    #  value that the same solver does NOT return for the formula itself is held against the file)
+                    from rsome.lp import def_sol
+                    with C.quiet():
+                        s2 = def_sol(f, display=False)
+                    same_solver = None if (s2 is None or s2.x is None) else float(s2.objval)
+                    if same_solver is not None and abs(same_solver - direct) <= 1e-5 * (1 + abs(direct)):
+                        ctx.hit('export-changes-optimum:highs-reader:' + tag, {"file": hval, "direct": direct}, case)
+                    else:
+                        ctx.count('lp-file:highs-solver-disagrees-with-itself')
+                else:
+                    ctx.count('lp-file-agrees:highs-reader:' + tag)
         # integrality sections
         vt = ''.join('B' if v.VType == 'B' else ('I' if v.VType == 'I' else 'C') for v in g.getVars())
         names = [v.VarName for v in g.getVars()]
